@@ -228,3 +228,158 @@ Proof.
     clear. induction rs as [|r rs IH]; cbn [more_text List.length app]; [lia|]. rewrite !app_length in *. cbn [List.length] in *. lia.
 Qed.
 End Parse.
+
+Section Lines.
+Variable U : uclass.
+
+Definition is_ascii_alnum (c : Z) : bool := (c <? 128) && (is_ascii_alpha c || is_digit c).
+Definition is_lower (c : Z) : bool := (97 <=? c) && (c <=? 122).
+
+(** a mnemonic as the disassembler prints it: ASCII letters and digits, starting with a lower-case letter; if it starts
+    with `r`, a letter follows (so it cannot be mistaken for a register) *)
+Definition name_ok (n : list Z) : Prop :=
+  Forall (fun c => is_ascii_alnum c = true) n /\
+  match n with
+  | c :: tl => is_lower c = true /\ (c = 114 -> match tl with c2 :: _ => is_ascii_alpha c2 = true | [] => False end)
+  | [] => False
+  end.
+
+Definition itext (name : list Z) (rs : list rop) : list Z :=
+  name ++ match rs with [] => [] | _ => 32 :: ops_text rs end.
+Definition ival (name : list Z) (rs : list rop) : instr := (name, map rop_val rs).
+
+Lemma alnum_ascii c : is_ascii_alnum c = true -> is_alnum U c = true.
+Proof. unfold is_ascii_alnum, is_alnum. intros H. apply andb_true_iff in H as [A B]. rewrite A. exact B. Qed.
+
+Lemma lower_not_space c : is_lower c = true -> is_space U c = false.
+Proof.
+  unfold is_lower, is_space. intros H. apply andb_true_iff in H as [A B]. apply Z.leb_le in A, B.
+  destruct (Z.ltb_spec c 128); [|lia]. destruct (Z.leb_spec 9 c), (Z.leb_spec c 13); try lia; cbn [andb orb]; apply Z.eqb_neq; lia.
+Qed.
+
+(** what follows an instruction line: nothing, or a newline and then the next mnemonic *)
+Definition starts_name (l : list Z) : Prop :=
+  match l with
+  | c :: tl => is_lower c = true /\ (c = 114 -> match tl with c2 :: _ => is_alpha U c2 = true | [] => False end)
+  | [] => False
+  end.
+Definition after_line (rest : list Z) : Prop :=
+  match rest with [] => True | c :: rest' => c = 10 /\ starts_name rest' end.
+Definition next_of (rest : list Z) : list Z := match rest with [] => [] | _ :: rest' => rest' end.
+
+Lemma after_line_end rest : after_line rest -> line_end rest.
+Proof. destruct rest; [exact id|]. cbn. tauto. Qed.
+
+Lemma skip_after rest : after_line rest -> skip_spaces U rest = next_of rest.
+Proof.
+  destruct rest as [|c rest']; [reflexivity|]. intros [-> Hn]. unfold skip_spaces. cbn [span next_of].
+  change (is_space U 10) with true. cbv iota.
+  destruct rest' as [|c2 tl]; [destruct Hn|]. destruct Hn as [L _]. cbn [span]. rewrite (lower_not_space c2 L).
+  destruct (span (is_space U) (c2 :: tl)); reflexivity.
+Qed.
+
+Lemma skip_name l : starts_name l -> skip_spaces U l = l.
+Proof.
+  destruct l as [|c tl]; [intros []|]. intros [L _]. unfold skip_spaces. cbn [span]. now rewrite (lower_not_space c L).
+Qed.
+
+Lemma p_operand_name l : starts_name l -> p_operand U l = PErr false.
+Proof.
+  destruct l as [|c tl]; [intros []|]. intros [L R]. unfold is_lower in L. apply andb_true_iff in L as [A B]. apply Z.leb_le in A, B.
+  assert (PI : p_integer (c :: tl) = PErr false).
+  { unfold p_integer. destruct (Z.eqb_spec c 45); [lia|]. destruct (Z.eqb_spec c 43); [lia|]. cbv iota.
+    assert (D : is_digit c = false) by (unfold is_digit; destruct (Z.leb_spec 48 c), (Z.leb_spec c 57); try lia; reflexivity).
+    unfold p_hex. destruct tl as [|c1 tl'].
+    - unfold p_dec. cbn [span]. rewrite D. reflexivity.
+    - destruct (Z.eqb_spec c 48); [lia|]. cbn [andb]. unfold p_dec. cbn [span]. rewrite D. reflexivity. }
+  unfold p_operand. destruct (Z.eq_dec c 114) as [->|N].
+  - specialize (R eq_refl). unfold p_register. change (114 =? 114) with true. cbv iota.
+    destruct tl as [|c2 tl2]; [destruct R|]. rewrite R. rewrite PI. unfold p_memory. change (114 =? 91) with false. reflexivity.
+  - rewrite p_register_not_r by exact N. rewrite PI. unfold p_memory. destruct (Z.eqb_spec c 91); [lia|reflexivity].
+Qed.
+
+Lemma name_starts name tl : name_ok name -> starts_name (name ++ tl).
+Proof.
+  intros [Ha Hs]. destruct name as [|c n]; [destruct Hs|]. destruct Hs as [L R]. cbn [app starts_name]. split; [exact L|].
+  intros E. specialize (R E). destruct n as [|c2 n2]; [destruct R|]. cbn [app].
+  unfold is_alpha. inversion Ha as [|? ? _ Ha2]; subst. inversion Ha2 as [|? ? H2 _]; subst.
+  unfold is_ascii_alnum in H2. apply andb_true_iff in H2 as [H2 _]. rewrite H2. exact R.
+Qed.
+
+Lemma p_ident_name name rest : name_ok name -> (match rest with [] => True | c :: _ => c = 32 \/ c = 10 end) ->
+  p_ident U (name ++ rest) = POk true name rest.
+Proof.
+  intros [Ha Hs] Hr. unfold p_ident.
+  rewrite span_app; [| eapply Forall_impl; [|exact Ha]; intros c Hc; now apply alnum_ascii |].
+  - destruct name; [destruct Hs|reflexivity].
+  - destruct rest as [|c tl]; [exact I|]. cbn. destruct Hr as [->| ->]; reflexivity.
+Qed.
+
+Lemma p_instruction_text name rs rest : name_ok name -> Forall rop_wf rs -> after_line rest ->
+  p_instruction U (itext name rs ++ rest) = POk true (ival name rs) (next_of rest).
+Proof.
+  intros Hn Hw Hr. unfold p_instruction, itext, ival. rewrite <- app_assoc.
+  destruct rs as [|r rs].
+  - cbn [app]. rewrite p_ident_name; [|exact Hn|destruct rest as [|c tl]; [exact I|destruct Hr as [-> _]; tauto]].
+    rewrite skip_after by exact Hr.
+    assert (PO : p_operands U (next_of rest) = POk false [] (next_of rest)).
+    { unfold p_operands. destruct rest as [|c rest']; [reflexivity|]. destruct Hr as [_ Hs]. cbn [next_of].
+      rewrite p_operand_name by exact Hs. reflexivity. }
+    rewrite PO. cbn [map]. f_equal.
+    destruct rest as [|c rest']; [reflexivity|]. destruct Hr as [_ Hs]. cbn [next_of]. now apply skip_name.
+  - rewrite p_ident_name; [|exact Hn|cbn; tauto].
+    inversion Hw as [|? ? Hr1 _]; subst.
+    assert (SK : skip_spaces U ((32 :: ops_text (r :: rs)) ++ rest) = ops_text (r :: rs) ++ rest).
+    { cbn [app]. unfold skip_spaces. cbn [span]. change (is_space U 32) with true. cbv iota.
+      destruct (rop_text_head r Hr1) as (c & tl & E & Hc). cbn [ops_text]. rewrite E. cbn [app].
+      pose proof (skip_spaces_head U c ((tl ++ more_text rs) ++ rest) Hc) as K. unfold skip_spaces in K.
+      destruct (span (is_space U) (c :: (tl ++ more_text rs) ++ rest)) as [a b]. cbn [snd] in *. exact K. }
+    rewrite SK. rewrite p_operands_text by (try assumption; now apply after_line_end).
+    rewrite skip_after by exact Hr. reflexivity.
+Qed.
+
+(** programs: instruction lines joined by newlines *)
+Fixpoint prog_text (l : list (list Z * list rop)) : list Z :=
+  match l with
+  | [] => []
+  | [(n, rs)] => itext n rs
+  | (n, rs) :: l' => itext n rs ++ 10 :: prog_text l'
+  end.
+
+Definition line_ok (x : list Z * list rop) : Prop := name_ok (fst x) /\ Forall rop_wf (snd x).
+
+Lemma prog_text_starts l : l <> [] -> Forall line_ok l -> starts_name (prog_text l).
+Proof.
+  intros N H. destruct l as [|[n rs] l']; [contradiction|]. inversion H as [|? ? [Hn _] _]; subst. cbn [fst] in Hn.
+  destruct l' as [|x l'']; cbn [prog_text]; unfold itext; rewrite <- ?app_assoc; now apply name_starts.
+Qed.
+
+Lemma p_instructions_text l : forall fuel, (List.length l < fuel)%nat -> Forall line_ok l ->
+  p_instructions U fuel (prog_text l) = POk (match l with [] => false | _ => true end) (map (fun x => ival (fst x) (snd x)) l) [].
+Proof.
+  induction l as [|[n rs] l' IH]; intros fuel Hf H.
+  - destruct fuel as [|f]; [cbn in Hf; lia|]. reflexivity.
+  - destruct fuel as [|f]; [cbn in Hf; lia|]. inversion H as [|? ? [Hn Hw] H']; subst. cbn [fst snd] in *.
+    cbn [p_instructions]. destruct l' as [|y l''].
+    + cbn [prog_text]. rewrite <- (app_nil_r (itext n rs)). rewrite p_instruction_text by (try assumption; exact I).
+      cbn [next_of]. destruct f as [|f']; [cbn in Hf; lia|]. cbn [p_instructions p_instruction p_ident span]. reflexivity.
+    + change (prog_text ((n, rs) :: y :: l'')) with (itext n rs ++ 10 :: prog_text (y :: l'')).
+      rewrite p_instruction_text; [|assumption|assumption|split; [reflexivity|apply prog_text_starts; [discriminate|assumption]]].
+      cbn [next_of]. cbn [List.length] in Hf. rewrite (IH f ltac:(cbn [List.length]; lia) H'). reflexivity.
+Qed.
+
+Theorem parse_prog_text l : Forall line_ok l ->
+  parse U (prog_text l) = Ok (map (fun x => ival (fst x) (snd x)) l).
+Proof.
+  intros H. unfold parse.
+  assert (SK : skip_spaces U (prog_text l) = prog_text l).
+  { destruct l as [|x l']; [reflexivity|]. apply skip_name, prog_text_starts; [discriminate|exact H]. }
+  rewrite SK. rewrite p_instructions_text; [reflexivity| |exact H].
+  assert (L : (List.length l <= List.length (prog_text l))%nat).
+  { clear SK. induction H as [|[n rs] l' [Hn _] _ IH]; [cbn; lia|]. cbn [fst] in Hn.
+    assert (1 <= List.length (itext n rs))%nat.
+    { unfold itext. rewrite app_length. destruct Hn as [_ Hs]. destruct n; [destruct Hs|cbn [List.length]; lia]. }
+    destruct l' as [|y l'']; cbn [prog_text List.length] in *; [lia|]. rewrite app_length. cbn [List.length]. lia. }
+  lia.
+Qed.
+End Lines.
